@@ -307,8 +307,11 @@ func (parseArea) Gen(r *hx.Rng, n int, _ string, emit func(string)) {
 		} else {
 			s = genLit(r, d, wide)
 		}
-		if isExp(s) && r.Chance(3, 4) { // the exponent branch has its own area; keep a few for the dispatch
-			s = strings.NewReplacer("e", "", "E", "").Replace(s)
+		if r.Chance(1, 7) { // the exponent branch (Model/FixedTextExp.lean)
+			s = genExpLit(r, d)
+			if r.Chance(1, 10) { // quoted: UnmarshalText strips one pair, FromString rejects
+				s = `"` + s + `"`
+			}
 		}
 		emit("parse " + ty + " " + strconv.Itoa(d) + " " + hx.Hex([]byte(s)))
 	}
@@ -532,28 +535,79 @@ func genFloatCase(r *hx.Rng, op string) string {
 	}
 }
 
+// genExpLit produces texts for the exponent branch of FromString (strconv.ParseFloat, then From[T](float64)):
+// well-formed exponent literals of every shape, products at the edge of int64 (f64: implementation-defined
+// conversion) and of the 128-bit range (f128: saturation), values at the edge of float64 (overflow = range error,
+// underflow = 0), long mantissas, saturating exponents, malformed neighbours, and the families outside the model
+// (hexadecimal floats, underscores).
+func genExpLit(r *hx.Rng, d int) string {
+	e := func() string { return hx.Pick(r, []string{"e", "E"}) }
+	switch r.Intn(16) {
+	case 0:
+		return genGarbage(r) + hx.Pick(r, []string{"e", "E", "e5", "E-3"})
+	case 1:
+		s := genLit(r, d, false)
+		i := r.Intn(len(s) + 1)
+		return s[:i] + e() + s[i:]
+	case 2:
+		return hx.Pick(r, []string{"1e400", "-1e400", "1e-400", "0x1p-2", "0x1.8P3", "1E", "E1", "e", "E", "1e+", "1_0e1", "Infinity",
+			"-infinity", "1e19", "-1e19", "9.3e18", "1e38", "1e39", "-1e39", "1.7e38", "1e-17", "5e-324", "1,000e3", "1e1,0", "\xffe1",
+			"0x1ep3", "-0Xep1", "+0x1e", "0xe", "1e5_0", "infe", "nane5", "-0e5", "+0e-5", "0e99999", "1e308", "1.8e308", "1.7976931348623157e308",
+			"1.7976931348623159e308", "2.5e-324", "2.4e-324", "4.9e-324", "1e-323", "1e10000", "1e-10000", "1e99999999999999999999",
+			"1e-99999999999999999999", ".e5", "1.e5", ".5e5", "1..e5", "+-1e5", "1e5e3", "1.5e2.5", "e5", "+e5", "1e 5", " 1e5", "1e5 ",
+			"\"1e5\"", "\"1e5", "1e5\"", "\"\"1e5\"\"", "1e+05", "1e-05", "1E+0", "1e-0", "00001e2", "1e0000000000000000000000002"})
+	case 3: // the product value * 10^D at the edge of int64: 9.22337203685477xxxxe(18-D)
+		m := hx.Pick(r, []string{"9.223372036854775", "9.223372036854776", "9.2233720368547758", "9.2233720368547759", "9.223372036854774",
+			"9.22337203685477", "9.2233720368547748", "9.3", "9.2", "4.611686018427388", "18.446744073709552"})
+		return pick3(r) + m + e() + strconv.Itoa(18-d+r.Intn(3)-1)
+	case 4: // at the edge of the 128-bit range: 1.70141183460469231731687303715884105727e(38-D)
+		m := hx.Pick(r, []string{"1.7014118346046923", "1.7014118346046924", "1.7014118346046922", "1.70141183460469231731687303715884105727",
+			"1.70141183460469231731687303715884105728", "1.8", "1.7", "3.4028236692093846"})
+		return pick3(r) + m + e() + strconv.Itoa(38-d+r.Intn(3)-1)
+	case 5: // long mantissas (more than the 19 digits of the fast path, more than 800 digits of the slow path)
+		n := hx.Pick(r, []int{17, 18, 19, 20, 21, 40, 100, 770, 800, 801, 1100})
+		s := pick3(r) + strconv.Itoa(1+r.Intn(9)) + digits(r, r.Intn(3)) + "." + digits(r, n)
+		return s + e() + hx.Pick(r, []string{"", "+", "-"}) + strconv.Itoa(r.Intn(12))
+	case 6: // mantissa of leading / trailing zeros with a compensating exponent
+		n := hx.Pick(r, []int{1, 5, 20, 30, 300, 330, 400})
+		if r.Bool() {
+			return pick3(r) + "0." + strings.Repeat("0", n) + strconv.Itoa(1+r.Intn(99)) + e() + strconv.Itoa(n+r.Intn(5))
+		}
+		return pick3(r) + strconv.Itoa(1+r.Intn(99)) + strings.Repeat("0", n) + e() + "-" + strconv.Itoa(n+r.Intn(5)-2)
+	case 7: // negative exponents: values below one unit of the last place, truncation of the product
+		s := pick3(r) + strconv.Itoa(1+r.Intn(9999))
+		if r.Bool() {
+			s += "." + digits(r, r.Intn(6))
+		}
+		return s + e() + "-" + strconv.Itoa(r.Intn(d+6))
+	case 8: // exactly representable small numbers (k·2^-j) with an exponent: exact results
+		k := r.Intn(4)
+		return pick3(r) + hx.Pick(r, []string{"5", "25", "125", "75", "375", "1", "2", "15"}) + e() + hx.Pick(r, []string{"-", ""}) + strconv.Itoa(k)
+	case 9: // exponent digits: saturation of the accumulator, leading zeros, many digits
+		ex := hx.Pick(r, []string{"9999", "10000", "10001", "99999", "100000", "0009", "00000000000000000000", "4294967296", "18446744073709551616"})
+		return pick3(r) + hx.Pick(r, []string{"1", "0", "0.0", "1.5", "0.000001"}) + e() + hx.Pick(r, []string{"", "+", "-"}) + ex
+	case 10: // the families outside the model, and near misses of them
+		return pick3(r) + hx.Pick(r, []string{"0x", "0X", "0", "x", "0_", "_", "1_"}) + digits(r, 1+r.Intn(3)) + hx.Pick(r, []string{"e", "E", "ep1", "eP-1", "p1e", "e1_0", "e_1"}) + digits(r, r.Intn(2))
+	case 11: // separators inside an exponent literal (removed before the dispatch)
+		s := group(strconv.Itoa(1+r.Intn(9))+digits(r, 3+r.Intn(6))) + e() + hx.Pick(r, []string{"", "+", "-"}) + strconv.Itoa(r.Intn(9))
+		if r.Bool() {
+			i := r.Intn(len(s) + 1)
+			s = s[:i] + "," + s[i:]
+		}
+		return pick3(r) + s
+	default:
+		s := pick3(r) + digits(r, 1+r.Intn(4))
+		if r.Bool() {
+			s += "." + digits(r, r.Intn(d+3))
+		}
+		return s + e() + hx.Pick(r, []string{"", "+", "-"}) + strconv.Itoa(r.Intn(25))
+	}
+}
+
 func (expArea) Gen(r *hx.Rng, n int, _ string, emit func(string)) {
 	for i := 0; i < n; i++ {
 		d := 1 + r.Intn(16)
 		ty, _ := pickTy(r)
-		var s string
-		switch r.Intn(8) {
-		case 0:
-			s = genGarbage(r) + hx.Pick(r, []string{"e", "E", "e5", "E-3"})
-		case 1:
-			s = genLit(r, d, false)
-			i := r.Intn(len(s) + 1)
-			s = s[:i] + hx.Pick(r, []string{"e", "E"}) + s[i:]
-		case 2:
-			s = hx.Pick(r, []string{"1e400", "-1e400", "1e-400", "0x1p-2", "0x1.8P3", "1E", "E1", "e", "E", "1e+", "1_0e1", "Infinity",
-				"-infinity", "1e19", "-1e19", "9.3e18", "1e38", "1e39", "-1e39", "1.7e38", "1e-17", "5e-324", "1,000e3", "1e1,0", "\xffe1"})
-		default:
-			s = pick3(r) + digits(r, 1+r.Intn(4))
-			if r.Bool() {
-				s += "." + digits(r, r.Intn(d+3))
-			}
-			s += hx.Pick(r, []string{"e", "E"}) + hx.Pick(r, []string{"", "+", "-"}) + strconv.Itoa(r.Intn(25))
-		}
-		emit("exp " + ty + " " + strconv.Itoa(d) + " " + hx.Hex([]byte(s)))
+		emit("exp " + ty + " " + strconv.Itoa(d) + " " + hx.Hex([]byte(genExpLit(r, d))))
 	}
 }
